@@ -787,6 +787,32 @@ def tag_registry(P, rep, rule="TAG.unique"):
     vec_k, str_k = F.params
     ifs = [x for x in F.walk() if x.get("k") == "IfStmt"]
     loops = [x for x in F.walk() if x.get("k") in ("ForStmt", "CXXForRangeStmt", "WhileStmt")]
+    finds = [x for x in F.walk() if x.get("k") == "CallExpr" and P.d(x.get("callee")).get("qn") == "std::find"]
+    if len(finds) == 1 and not loops and len(ifs) == 1:
+        # the same search spelled with the standard algorithm: std::find compares with operator== (full string equality)
+        R_ = lambda n: norm.render(P, n, nocast=True, subst=norm.naming_locals(P, F)).replace(" ", "")
+        a = finds[0]["c"][1:]
+        okf = len(a) == 3 and R_(a[0]) == "vector.begin()" and R_(a[1]) == "vector.end()" and astq.is_ref_to(a[2], str_k) and astq.is_ref_to(sc(a[0])["c"][0]["c"][0] if sc(a[0]).get("c") else None, vec_k)
+        cond = R_(ifs[0]["c"][0])
+        rets_ = [x for x in F.walk() if x.get("k") == "ReturnStmt" and x.get("c")]
+        in_if_ = [r for r in rets_ if any(a_ is ifs[0] for a_ in F.ancestors(r))]
+        after_ = [r for r in rets_ if r not in in_if_]
+        found_txt = R_(finds[0])
+        for v_ in F.walk():        # the iterator may be held in a local
+            if v_.get("k") == "VarDecl" and v_.get("c") and any(y is finds[0] for y in F.walk(v_["c"][0])) and R_(v_["c"][0]).endswith(found_txt):
+                found_txt = v_.get("n")
+        hit = len(in_if_) == 1 and R_(in_if_[0]["c"][0]) in ("std::distance(vector.begin(),%s)" % found_txt, "(%s-vector.begin())" % found_txt)
+        miss = len(after_) == 1 and R_(after_[0]["c"][0]) in ("(vector.size()-1)",)
+        pushes_ = [x for x in F.walk() if x.get("k") == "CXXMemberCallExpr" and x["c"][0].get("n") in ("push_back", "emplace_back")]
+        push_ok = len(pushes_) == 1 and astq.is_ref_to(pushes_[0]["c"][0]["c"][0], vec_k) and astq.is_ref_to(pushes_[0]["c"][1], str_k)
+        if okf and cond in ("(%s!=vector.end())" % found_txt, "(vector.end()!=%s)" % found_txt) and hit and miss and push_ok:
+            rep.ok(rule, "add_vector_unique: std::find over the whole list with the argument (operator==), index by distance, else append", F.loc, F.qn)
+        else:
+            rep.unknown(rule, "add_vector_unique uses std::find in a form this rule does not recognise")
+        n = 0
+        from .layout import FEATURES
+        _tag_sites(P, rep, F, rule)
+        return
     if len(ifs) != 1 or len(loops) != 1:
         raise AnalysisBroken("add_vector_unique: %d ifs, %d loops (the confirmed shape is one search loop with one test)" % (len(ifs), len(loops)))
     cond = sc(ifs[0]["c"][0])
@@ -825,6 +851,10 @@ def tag_registry(P, rep, rule="TAG.unique"):
     else:
         rep.violation(rule, "add_vector_unique: return/append structure", F.loc, F.qn, "; ".join(norm.render(P, r)[:60] for r in rets),
                       "the index handed back is not that of the interned tag", key="%s|structure" % rule)
+    _tag_sites(P, rep, F, rule)
+
+
+def _tag_sites(P, rep, F, rule):
     n = 0
     from .layout import FEATURES
     for f in FEATURES:
